@@ -283,6 +283,12 @@ def family_sections():
             fs.append([pos, neg, num("0", "0"), text([Q("t: "), AT])])
         fs.append([pos, text([AT])])
         fs.append([pos, neg_variants(ip, fp, grp)[1], text([AT, Pad(")")])])
+    # sections that differ in their digits (which section was used is visible whatever happens to the literals)
+    for a, b, c in [(("0", "0"), ("0", "00"), ("0", "000")), (("0", ""), ("0", "0"), ("00", "00")), (("#", "0"), ("0", "000"), ("0", ""))]:
+        fs.append([num(*a), num(*b)])
+        fs.append([num(*a), num(*b), num(*c)])
+        fs.append([num(*a), num(*b, pre=[Bc("-")]), num(*c), text([AT])])
+        fs.append([num(*a), num(*b, pre=[Bc("-")]), num(*c, post=[Pad(")")]), text([Q("t: "), AT])])
     # accounting formats (built-in 41-44 style)
     acc = [num("###0", "", [Pad("("), Fill(" ")], [Pad(")")], grp=True),
            num("###0", "", [Pad("("), Fill(" "), Bc("(")], [Bc(")")], grp=True),
@@ -307,6 +313,9 @@ def family_cond():
     fs.append([with_(c, cop="=", cval="1", post=[Q(" item")]), with_(c, post=[Q(" items")])])
     fs.append([with_(a, cop="<>", cval="0"), lit([Q("nil")])])
     fs.append([with_(a, cop="<=", cval="0.5", color="Red"), with_(b, color="Blue")])
+    fs.append([with_(a, cop="<=", cval="0.5", color="Blue"), with_(b, color="Green")])
+    fs.append([with_(a, cop="<=", cval="0.5"), b])
+    fs.append([with_(a, cop=">=", cval="-5"), with_(b, cop="<=", cval="-100"), c])
     fs.append([with_(num("###0", "", [], [Q("k")], grp=True, sc=1), cop=">", cval="1000"),
                with_(num("###0", "", [Bc("-")], [Q("k")], grp=True, sc=1), cop="<", cval="-1000"), c])
     fs.append([with_(a, cop=">=", cval="100"), with_(b, cop="<", cval="-1.5"), c])
@@ -511,7 +520,7 @@ def fixed_items():
         num_item("0.75", [date(d(H1, CO, MO2, CO, S2, SP, AP))]),                              # KF19  (no m as month: colon)
         num_item("45435", [date(d(Y4, DASH, MO2, DASH, D2), up=True)]), num_item("45435", [date(d(Y4, DASH, MO2, DASH, D2))]),  # KF20
         num_item(serial(100, 5, 4, 2), [date(d(H1, CO, MO2, CO, S1))]),                        # KF21
-        num_item("50", [with_(num("0", "0"), color="Red", cop="<=", cval="100"), with_(num("0", "00"), color="Blue", cop=">", cval="100")]),  # KF22
+        num_item("50", [with_(num("0", "0"), color="Red", cop="<=", cval="100"), with_(num("0", "00"), color="Blue")]),  # KF22
         num_item("12200000", [num("0", "0", sc=2)]), num_item("1234567", [num("###0", "", grp=True, sc=1)]),
     ]
     for it in out:
@@ -520,8 +529,8 @@ def fixed_items():
     return out
 
 
-QUICK_CAP = {"single": 800, "literals": 450, "currency": 300, "percent": 250, "sections": 800, "cond": 300, "sci": 250,
-             "frac": 420, "date": 600, "text": 230, "tlc": 600, "random": 600}
+QUICK_CAP = {"single": 500, "literals": 300, "currency": 220, "percent": 180, "sections": 550, "cond": 160, "sci": 200,
+             "frac": 300, "date": 450, "text": 219, "tlc": 400, "random": 450}
 
 
 def gen_items(chk, replays):
@@ -537,7 +546,7 @@ def gen_items(chk, replays):
     for fam, fs in [("single", family_single()), ("literals", family_literals()), ("currency", family_currency()),
                     ("percent", family_percent()), ("sections", family_sections()), ("cond", family_cond())]:
         for secs in fs:
-            base = ["0", "5", "-5", "1234.5", "-1234.5", "0.5", "-0.4"] if fam != "cond" else ["0", "100", "-1.5", "1", "99.95", "-5", "5"]
+            base = ["0", "5", "-5", "1234.5", "-1234.5", "0.5", "-0.4"] if fam != "cond" else ["0", "100", "-1.5", "1", "99.95", "-5", "5", "0.5", "1000", "-1000", "10", "-100", "100.5", "0.51"]
             for t in dict.fromkeys(base + (rng.sample(allv, 10) if quick else allv)):
                 add(fam, t, secs)
     scivals = both(["0", "1", "5", "12", "123", "1234.5", "0.5", "0.05", "0.00012", "999.96", "99996", "9.995", "0.09995",
@@ -551,7 +560,11 @@ def gen_items(chk, replays):
             add("frac", t, secs)
     for kind, secs in family_date():
         # a section in which an m could be (or is, by the pinned code) a month needs a real calendar day
-        monthy = any(i["t"] in ("d", "el") and "".join(i["c"]) in ("m", "mm") for i in secs[0]["pre"])
+        pre = secs[0]["pre"]
+        colon = lambda j: 0 <= j < len(pre) and pre[j]["t"] in ("b", "e") and pre[j]["c"] == [":"]
+        monthy = any(i["t"] == "el" and "".join(i["c"]) in ("m", "mm") or
+                     i["t"] == "d" and ("".join(i["c"]) == "m" or "".join(i["c"]) == "mm" and not (colon(j - 1) or colon(j + 1)))
+                     for j, i in enumerate(pre))
         if kind == "cal":
             vals = CALVALS
         elif kind == "clock":
@@ -577,7 +590,7 @@ def gen_items(chk, replays):
             continue                       # the model reads its counter as a serial for date sections: driven above
         add("tlc", num_text(r["x"]), r["secs"])
     # random compositions
-    for _ in range(400 if quick else 12000):
+    for _ in range(400 if quick else 6000):
         secs = rand_format(rng)
         for _ in range(3):
             add("random", rand_number(rng), secs)
@@ -607,7 +620,11 @@ def validate(chk, events, tag):
     out = vlib.validate("Trace_NumFmt2", "Trace_NumFmt2.cfg", events, chk.open_ids, tag, chunk_events=8, jobs=4)
     for ci, off, detail in out["mismatch"]:
         if detail.startswith('<<"gen"'):
-            raise vlib.ToolError("generator/driver facts and specification disagree: " + detail[:1500])
+            m = vlib.re.match(r'<<"gen", (\d+)', detail)
+            its = events[ci][0].get("items", [])
+            it = its[int(m.group(1)) - 1] if m and int(m.group(1)) <= len(its) else {}
+            raise vlib.ToolError("generator/driver facts and specification disagree: " + detail[:300] + " item " +
+                                 json.dumps({k: it.get(k) for k in ("kind", "s", "fmt", "out", "rt", "fr1", "h24", "dv")}))
     return out
 
 
@@ -652,15 +669,21 @@ MUST_TAKE = ["RPositive", "RNegative", "RZero", "RAutoSign", "RCondFirst", "RCon
 
 def run(chk):
     quick = chk.tier == "quick"
-    vlib.tlc_mc("MC_NumFmt2", "MC_NumFmt2.cfg" if quick else "MC_NumFmt2_thorough.cfg", workers=4, must_take=MUST_TAKE,
-                check=chk, timeout=7200)
-    if not vlib.os.environ.get("VERIF_DEBUG_SKIP_MC"):
-        # vacuity guard: a design that drops the literals must be refuted by LiteralsKept
-        r = vlib.run_tlc("MC_NumFmt2", "MC_NumFmt2_deviant.cfg", workers=4, timeout=1800)
+    # (1) the invariants, exhaustively on the model's (format, value, sign) triples.  Coverage statistics are switched
+    #     off here (they cost a factor of four on the recursive rendering operators) ...
+    vlib.tlc_mc("MC_NumFmt2", "MC_NumFmt2.cfg" if quick else "MC_NumFmt2_thorough.cfg", workers=4, check=chk, timeout=7200,
+                coverage=False)
+    # (2) ... and collected by a second run of the same machine without the invariants: every rule must be taken; this
+    #     run also prints the (format, value) pairs it visits: they are replayed into the library
+    rp = vlib.tlc_mc("MC_NumFmt2", "MC_NumFmt2_replay.cfg", workers=4, must_take=MUST_TAKE, check=chk, timeout=3600)
+    if rp is None:                                           # VERIF_DEBUG_SKIP_MC
+        rp = vlib.run_tlc("MC_NumFmt2", "MC_NumFmt2_replay.cfg", workers=4, timeout=3600, coverage=False)
+    else:
+        # (3) vacuity guard: a design that drops the literals must be refuted by LiteralsKept
+        r = vlib.run_tlc("MC_NumFmt2", "MC_NumFmt2_deviant.cfg", workers=4, timeout=1800, coverage=False)
         if r.ok or not (r.violation and "LiteralsKept" in r.violation):
             raise vlib.ToolError(f"the deviant design (literals dropped) was not refuted by LiteralsKept: {r.violation}")
         vlib.log(f"[tlc] MC_NumFmt2 deviant design refuted as required: {r.violation}")
-    rp = vlib.run_tlc("MC_NumFmt2", "MC_NumFmt2_replay.cfg", workers=4, timeout=1800, coverage=False)
     if not rp.ok or not rp.replays:
         raise vlib.ToolError(f"the replay run of MC_NumFmt2 failed: rc={rp.rc} {rp.violation}")
     vlib.log(f"[tlc] MC_NumFmt2 replay: {len(rp.replays)} (format, value) pairs")
